@@ -19,7 +19,7 @@ pub fn token() -> BoxedStrategy<String> {
         6 => prop::sample::select(vec!["00", "01", "10", "9", "99", "100", "007"]).prop_map(String::from),
         6 => (1usize..=18, any::<u64>(), any::<u64>()).prop_map(|(l, a, b)| digits(l, a, b)),
         2 => prop::sample::select(vec!["4294967295", "4294967296", "2147483647", "2147483648", "65536", "20240101120000", "20230101120000", "999999999999999999", "100000000000000000", "9223372036854775807", "9223372036854775806", "1000000000000000000"]).prop_map(String::from),
-        2 => crate::engine::gen::interesting_u64(i64::MAX as u64).prop_map(|n| n.to_string()),
+        4 => crate::engine::gen::interesting_u64(i64::MAX as u64).prop_map(|n| n.to_string()),
         25 => prop::sample::select(vec![".", ".", ".", "_"]).prop_map(String::from),
         12 => (0usize..5, any::<u32>()).prop_map(|(i, m)| apply_case(MODIFIERS[i], if m % 3 == 0 { m } else { 0 })),
         10 => (0u8..26, any::<bool>()).prop_map(|(i, up)| {
